@@ -847,7 +847,8 @@ def _group_func_wrap(
             counts,
         )
 
-    if orig_type.kind in "mM":
+    if orig_type.kind in "mM" and not counting:
+        # counts are plain integers, whatever the dtype of the counted values
         result = result.astype(orig_type)
 
     if return_count:
